@@ -8,6 +8,7 @@ structure GOK (g : GCtx) : Prop where
   tpsNone : g.tps.contains "NoneType" = false
   tpsSingle : ∀ x ∈ g.tps, comps x = [x]
   addsAlias : ∀ x ∈ g.adds, g.aliasNames.contains x = false
+  noneAlias : g.aliasNames.contains "NoneType" = false
 
 /-- what a `Definitions` state must satisfy for the printed types of the unit to resolve correctly:
 the needed `typing` members are imported, other names are unbound or bound to themselves, and only alias
